@@ -781,4 +781,855 @@ theorem delAt_slots {idx : Nat → Nat → Nat} (hidx : IdxOk idx) {a : Slots V}
       rw [← hrd] at hkx'; exact hkx' rfl
     exact ⟨y, hy, hy0, by rw [← hr1 y hy0]; exact hrd, hd⟩
 
+
+/-! ### growth -/
+
+theorem ceilPow2Go_ge (x : Nat) : ∀ f s, x ≤ s * 2 ^ f → x ≤ ceilPow2Go x f s := by
+  intro f
+  induction f with
+  | zero => intro s h; simpa [ceilPow2Go] using h
+  | succ f ih =>
+    intro s h
+    unfold ceilPow2Go
+    split
+    · apply ih
+      rw [Nat.pow_succ] at h
+      have e : 2 * s * 2 ^ f = s * (2 ^ f * 2) := by rw [Nat.mul_comm 2 s, Nat.mul_assoc, Nat.mul_comm 2]
+      rw [e]; exact h
+    · omega
+
+theorem le_ceilPow2 (x : Nat) : x ≤ ceilPow2 x := by
+  unfold ceilPow2
+  apply ceilPow2Go_ge
+  have := @Nat.lt_two_pow_self x
+  omega
+
+theorem lt_growLen (n : Nat) (h : 0 < n) : n < growLen n := by
+  unfold growLen
+  have := le_ceilPow2 (if n ≥ 1048576 then n + n / 2 else n * 2)
+  by_cases hc : n ≥ 1048576 <;> simp only [hc, if_true, if_false] at this ⊢ <;> omega
+
+theorem le_growAt_growLen (n : Nat) (h : 0 < n) : n ≤ growAtOf (growLen n) := by
+  unfold growLen growAtOf
+  have := le_ceilPow2 (if n ≥ 1048576 then n + n / 2 else n * 2)
+  by_cases hc : n ≥ 1048576 <;> simp only [hc, if_true, if_false] at this ⊢ <;> omega
+
+theorem growAtOf_lt (n : Nat) (h : 0 < n) : growAtOf n < n := by
+  unfold growAtOf; omega
+
+theorem key_oob (a : Slots V) (i : Nat) (h : a.size ≤ i) : key a i = 0 := by
+  unfold key; rw [rd_oob a i h]
+
+theorem probeEmpty_probe (a : Slots V) (k : Nat) (habs : ∀ p, key a p ≠ k) :
+    ∀ f c, probe a k f c = match probeEmpty a f c with | some e => .empty e | none => .full := by
+  intro f
+  induction f with
+  | zero => intro c; simp [probe, probeEmpty]
+  | succ f ih =>
+    intro c
+    unfold probe probeEmpty
+    have := habs c
+    unfold key at this
+    rw [if_neg this]
+    split
+    · rfl
+    · exact ih _
+
+/-- `SInv` without the free slot (used while a fresh table is being filled) -/
+theorem mem_toList_iff (a : Slots V) (k : Nat) (v : V) : (k, v) ∈ a.toList ↔ Has a k v := by
+  unfold Has
+  rw [List.mem_iff_getElem]
+  simp only [Array.length_toList, Array.getElem_toList]
+  constructor
+  · rintro ⟨i, hi, h⟩; exact ⟨i, hi, by rw [rd_eq_getElem a i hi]; exact h⟩
+  · rintro ⟨i, hi, h⟩; exact ⟨i, hi, by rw [← rd_eq_getElem a i hi]; exact h⟩
+
+theorem toList_pairwise {idx : Nat → Nat → Nat} (a : Slots V) (inv : SInv idx a) :
+    a.toList.Pairwise (fun p q => p.1 ≠ 0 → p.1 ≠ q.1) := by
+  rw [List.pairwise_iff_getElem]
+  intro i j hi hj hij h0 heq
+  simp only [Array.length_toList] at hi hj
+  simp only [Array.getElem_toList] at h0 heq
+  have := inv.nodup i j hi hj (by unfold key; rw [rd_eq_getElem a i hi]; exact h0)
+    (by unfold key; rw [rd_eq_getElem a i hi, rd_eq_getElem a j hj]; exact heq)
+  omega
+
+theorem reinsert_fold {idx : Nat → Nat → Nat} (hidx : IdxOk idx) (N : Nat) :
+    ∀ (l : List (Nat × V)) (b : Slots V) (c : Nat), b.size = N → SInv idx b →
+      occ b + l.countP (fun p => p.1 != 0) < N →
+      (∀ p ∈ l, p.1 ≠ 0 → ∀ x, x < N → key b x ≠ p.1) →
+      l.Pairwise (fun p q => p.1 ≠ 0 → p.1 ≠ q.1) →
+      (l.foldl (UMap.reinsert idx) (b, c)).1.size = N ∧ SInv idx (l.foldl (UMap.reinsert idx) (b, c)).1 ∧
+      occ (l.foldl (UMap.reinsert idx) (b, c)).1 = occ b + l.countP (fun p => p.1 != 0) ∧
+      (l.foldl (UMap.reinsert idx) (b, c)).2 = c + l.countP (fun p => p.1 != 0) ∧
+      ∀ k v, k ≠ 0 → (Has (l.foldl (UMap.reinsert idx) (b, c)).1 k v ↔ Has b k v ∨ (k, v) ∈ l) := by
+  intro l
+  induction l with
+  | nil => intro b c hs inv _ _ _; simp [hs, inv]
+  | cons p l ih =>
+    intro b c hs inv hroom hdisj hpw
+    rw [List.foldl_cons]
+    rw [List.pairwise_cons] at hpw
+    by_cases hp0 : p.1 = 0
+    · have hr : UMap.reinsert idx (b, c) p = (b, c) := by unfold UMap.reinsert; rw [if_pos hp0]
+      rw [hr]
+      have hc : (p :: l).countP (fun p => p.1 != 0) = l.countP (fun p => p.1 != 0) := by
+        rw [List.countP_cons]; simp [hp0]
+      rw [hc] at hroom ⊢
+      obtain ⟨h1, h2, h3, h4, h5⟩ := ih b c hs inv hroom
+        (fun q hq => hdisj q (List.mem_cons_of_mem _ hq)) hpw.2
+      refine ⟨h1, h2, h3, h4, ?_⟩
+      intro k v hk
+      rw [h5 k v hk, List.mem_cons]
+      constructor
+      · rintro (h | h); exact Or.inl h; exact Or.inr (Or.inr h)
+      · rintro (h | h | h)
+        · exact Or.inl h
+        · rw [← h] at hp0; exact absurd hp0 hk
+        · exact Or.inr h
+    · have hc : (p :: l).countP (fun p => p.1 != 0) = l.countP (fun p => p.1 != 0) + 1 := by
+        rw [List.countP_cons]; simp [hp0]
+      rw [hc] at hroom ⊢
+      have habs : ∀ x, x < b.size → key b x ≠ p.1 := by
+        intro x hx; rw [hs] at hx; exact hdisj p (List.mem_cons_self ..) hp0 x hx
+      have habs' : ∀ x, key b x ≠ p.1 := by
+        intro x
+        by_cases hx : x < b.size
+        · exact habs x hx
+        · rw [key_oob b x (by omega)]; exact Ne.symm hp0
+      obtain ⟨_, hE, hF⟩ := probe_spec hidx inv p.1 hp0
+      have hpe := probeEmpty_probe b p.1 habs' b.size (idx b.size p.1)
+      cases hq : probeEmpty b b.size (idx b.size p.1) with
+      | none => rw [hq] at hpe; exact absurd hpe hF
+      | some e =>
+        rw [hq] at hpe
+        obtain ⟨he, hke, hpath, _⟩ := hE e hpe
+        have hr : UMap.reinsert idx (b, c) p = (wr b e p, c + 1) := by
+          unfold UMap.reinsert; rw [if_neg hp0]; simp only [hq]
+        rw [hr]
+        have hpp : p = (p.1, p.2) := rfl
+        have inv' : SInv idx (wr b e p) := by
+          rw [hpp]; exact sinv_insert hidx inv p.1 p.2 e hp0 he hke hpath habs (by omega)
+        have hocc : occ (wr b e p) = occ b + 1 := by
+          have := occ_wr b e p he
+          simp only [hke, hp0, ne_eq, not_true_eq_false, not_false_eq_true, if_true, if_false] at this
+          omega
+        have hkeyb : ∀ x, key (wr b e p) x = if e = x then p.1 else key b x := by
+          intro x; rw [key_wr]; simp [he]
+        obtain ⟨h1, h2, h3, h4, h5⟩ := ih (wr b e p) (c + 1) (by rw [size_wr]; exact hs) inv'
+          (by omega)
+          (by
+            intro q hq hq0 x hx
+            rw [hkeyb]
+            split
+            · exact hpw.1 q hq hp0
+            · exact hdisj q (List.mem_cons_of_mem _ hq) hq0 x hx)
+          hpw.2
+        refine ⟨h1, h2, by omega, by omega, ?_⟩
+        intro k v hk
+        rw [h5 k v hk, List.mem_cons]
+        have := has_insert b e p.1 p.2 he hke k hk v
+        rw [← hpp] at this
+        rw [this]
+        constructor
+        · rintro ((⟨h1, h2⟩ | h) | h)
+          · right; left; rw [hpp, h1, h2]
+          · left; exact h
+          · right; right; exact h
+        · rintro (h | h | h)
+          · left; right; exact h
+          · left; left; rw [hpp] at h; simp only [Prod.mk.injEq] at h; exact h
+          · right; exact h
+
+
+/-! ### the map-level invariant and abstraction -/
+
+/-- invariant of a `UInt64Map`: probe structure, `size` accounting, load below
+the growth threshold, threshold below the table length. -/
+structure Inv (idx : Nat → Nat → Nat) (m : UMap V) : Prop where
+  slots : SInv idx m.data
+  size_eq : m.size = occ m.data + (if m.zero.isSome then 1 else 0)
+  load : occ m.data ≤ m.growAt
+  room : m.growAt < m.data.size
+
+/-- abstraction: the partial map a table denotes (naive scan + out-of-band zero key). -/
+def abs (m : UMap V) (k : Nat) : Option V := if k = 0 then m.zero else lookup m.data k
+
+theorem nodup_key {idx : Nat → Nat → Nat} {a : Slots V} (inv : SInv idx a) (k : Nat) (hk : k ≠ 0) :
+    ∀ i j, i < a.size → j < a.size → key a i = k → key a j = k → i = j := by
+  intro i j hi hj h1 h2
+  exact inv.nodup i j hi hj (by rw [h1]; exact hk) (by rw [h1, h2])
+
+theorem has_iff_lookup {idx : Nat → Nat → Nat} {a : Slots V} (inv : SInv idx a) (k : Nat) (hk : k ≠ 0) (v : V) :
+    Has a k v ↔ lookup a k = some v := (lookup_eq_some_iff a k v (nodup_key inv k hk)).symm
+
+theorem lookup_eq_of_has {idx : Nat → Nat → Nat} {a : Slots V} (inv : SInv idx a) (k : Nat) (hk : k ≠ 0)
+    (o : Option V) (h : ∀ v, Has a k v ↔ o = some v) : lookup a k = o := by
+  cases o with
+  | none =>
+    rw [lookup_eq_none_iff]
+    intro p hp hkp
+    have : Has a k (rd a p).2 := ⟨p, hp, by unfold key at hkp; rw [← hkp]⟩
+    exact absurd ((h _).mp this) (by simp)
+  | some v => exact (has_iff_lookup inv k hk v).mp ((h v).mpr rfl)
+
+/-- **`Get` refines the abstract map.** -/
+theorem get_eq_abs {idx : Nat → Nat → Nat} (hidx : IdxOk idx) {m : UMap V} (inv : Inv idx m) (k : Nat) :
+    m.get idx k = abs m k := by
+  unfold UMap.get abs
+  by_cases hk : k = 0
+  · rw [if_pos hk, if_pos hk]
+  · rw [if_neg hk, if_neg hk]
+    obtain ⟨hF, hE, hN⟩ := probe_spec hidx inv.slots k hk
+    cases hp : probe m.data k m.data.size (idx m.data.size k) with
+    | found i =>
+      obtain ⟨hi, hki⟩ := hF i hp
+      simp only
+      symm
+      rw [← has_iff_lookup inv.slots k hk]
+      exact ⟨i, hi, by unfold key at hki; rw [← hki]⟩
+    | empty e =>
+      simp only
+      symm
+      rw [lookup_eq_none_iff]
+      exact (hE e hp).2.2.2
+    | full => exact absurd hp hN
+
+theorem has_eq_abs {idx : Nat → Nat → Nat} (hidx : IdxOk idx) {m : UMap V} (inv : Inv idx m) (k : Nat) :
+    m.has idx k = (abs m k).isSome := by
+  rw [← get_eq_abs hidx inv]
+  unfold UMap.has UMap.get
+  split
+  · rfl
+  · split <;> rfl
+
+theorem sinv_replicate (idx : Nat → Nat → Nat) (n : Nat) (hn : 0 < n) :
+    SInv idx (Array.replicate n ((0, default) : Nat × V)) := by
+  have hk : ∀ x, key (Array.replicate n ((0, default) : Nat × V)) x = 0 := by
+    intro x; unfold key; rw [rd_replicate]
+  refine ⟨?_, ?_, ⟨0, by simpa using hn, hk 0⟩⟩
+  · intro i j _ _ h0; exact absurd (hk i) h0
+  · intro j _ h0; exact absurd (hk j) h0
+
+theorem not_has_replicate (n k : Nat) (v : V) (hk : k ≠ 0) :
+    ¬ Has (Array.replicate n ((0, default) : Nat × V)) k v := by
+  rintro ⟨p, _, h⟩
+  rw [rd_replicate] at h
+  simp only [Prod.mk.injEq] at h
+  exact hk h.1.symm
+
+/-- **Growth keeps the invariant and the meaning**, and leaves the load
+strictly below the new threshold. -/
+theorem grow_spec {idx : Nat → Nat → Nat} (hidx : IdxOk idx) {m : UMap V} (inv : Inv idx m) :
+    Inv idx (m.grow idx) ∧ (∀ k, abs (m.grow idx) k = abs m k) ∧ (m.grow idx).size = m.size ∧
+    occ (m.grow idx).data < (m.grow idx).growAt ∧ (m.grow idx).data.size = growLen m.data.size := by
+  have hn : 0 < m.data.size := by have := inv.room; omega
+  have hN := lt_growLen m.data.size hn
+  have hocc : m.data.toList.countP (fun p => p.1 != 0) = occ m.data := by
+    unfold occ; rw [Array.countP_toList]
+  have F := reinsert_fold hidx (growLen m.data.size) m.data.toList
+    (Array.replicate (growLen m.data.size) (0, default)) 0 (by simp)
+    (sinv_replicate idx _ (by omega))
+    (by rw [occ_replicate, hocc]; have := inv.load; have := inv.room; omega)
+    (by intro p _ hp0 x _; unfold key; rw [rd_replicate]; exact Ne.symm hp0)
+    (toList_pairwise m.data inv.slots)
+  obtain ⟨h1, h2, h3, h4, h5⟩ := F
+  rw [occ_replicate, hocc] at h3
+  rw [hocc] at h4
+  have hdata : (m.grow idx).data = (m.data.toList.foldl (UMap.reinsert idx)
+      (Array.replicate (growLen m.data.size) (0, default), 0)).1 := rfl
+  have hsize : (m.grow idx).size = (m.data.toList.foldl (UMap.reinsert idx)
+      (Array.replicate (growLen m.data.size) (0, default), 0)).2 + (if m.zero.isSome then 1 else 0) := rfl
+  have hzero : (m.grow idx).zero = m.zero := rfl
+  have hga : (m.grow idx).growAt = growAtOf (growLen m.data.size) := rfl
+  have hle := le_growAt_growLen m.data.size hn
+  have hroom := inv.room
+  have hload := inv.load
+  refine ⟨⟨by rw [hdata]; exact h2, ?_, ?_, ?_⟩, ?_, ?_, ?_, by rw [hdata]; exact h1⟩
+  · rw [hsize, hdata, hzero, h3, h4]
+  · rw [hdata, hga, h3]; omega
+  · rw [hdata, hga, h1]; exact growAtOf_lt _ (by omega)
+  · intro k
+    unfold abs
+    rw [hzero]
+    by_cases hk : k = 0
+    · rw [if_pos hk, if_pos hk]
+    · rw [if_neg hk, if_neg hk, hdata]
+      apply lookup_congr _ _ k hk h2.nodup inv.slots.nodup
+      intro v
+      rw [h5 k v hk, mem_toList_iff]
+      constructor
+      · rintro (h | h)
+        · exact absurd h (not_has_replicate _ k v hk)
+        · exact h
+      · exact Or.inr
+  · rw [hsize, h4, inv.size_eq]; omega
+  · rw [hdata, hga, h3]; omega
+
+
+/-! ### Put -/
+
+/-- result of storing `(k, v)` at the slot the probe returned -/
+theorem store_spec {idx : Nat → Nat → Nat} (hidx : IdxOk idx) {m : UMap V} (inv : Inv idx m)
+    (hlt : occ m.data < m.growAt) (k : Nat) (hk : k ≠ 0) (v : V) :
+    (∀ i, probe m.data k m.data.size (idx m.data.size k) = .found i →
+      Inv idx { m with data := wr m.data i (k, v) } ∧
+      ∀ k', abs { m with data := wr m.data i (k, v) } k' = if k' = k then some v else abs m k') ∧
+    (∀ e, probe m.data k m.data.size (idx m.data.size k) = .empty e →
+      Inv idx { m with data := wr m.data e (k, v), size := m.size + 1 } ∧
+      ∀ k', abs { m with data := wr m.data e (k, v), size := m.size + 1 } k' = if k' = k then some v else abs m k') ∧
+    probe m.data k m.data.size (idx m.data.size k) ≠ .full := by
+  obtain ⟨hF, hE, hN⟩ := probe_spec hidx inv.slots k hk
+  have hroom := inv.room
+  have hsz := inv.size_eq
+  refine ⟨?_, ?_, hN⟩
+  · intro i hp
+    obtain ⟨hi, hki⟩ := hF i hp
+    have hkk : (k, v) = (key m.data i, v) := by rw [hki]
+    have inv' : SInv idx (wr m.data i (k, v)) := by rw [hkk]; exact sinv_update inv.slots i v
+    have hocc : occ (wr m.data i (k, v)) = occ m.data := by
+      have := occ_wr m.data i (k, v) hi
+      simp only [hki, hk, ne_eq, not_false_eq_true, if_true] at this
+      omega
+    refine ⟨⟨inv', ?_, ?_, ?_⟩, ?_⟩
+    · show m.size = occ (wr m.data i (k, v)) + (if m.zero.isSome then 1 else 0); rw [hocc]; exact hsz
+    · show occ (wr m.data i (k, v)) ≤ m.growAt; rw [hocc]; exact inv.load
+    · show m.growAt < (wr m.data i (k, v)).size; rw [size_wr]; exact hroom
+    · intro k'
+      unfold abs
+      show (if k' = 0 then m.zero else lookup (wr m.data i (k, v)) k') = _
+      by_cases hk' : k' = 0
+      · rw [if_pos hk', if_pos hk', if_neg (by rw [hk']; exact Ne.symm hk)]
+      · rw [if_neg hk', if_neg hk']
+        apply lookup_eq_of_has inv' k' hk'
+        intro v'
+        rw [hkk, has_update m.data i v hi inv.slots.nodup (by rw [hki]; exact hk) k' v', hki]
+        by_cases hkk' : k' = k
+        · rw [if_pos hkk']
+          constructor
+          · rintro (⟨_, h⟩ | ⟨h, _⟩); rw [h]; exact absurd hkk' h
+          · intro h; injection h with h; exact Or.inl ⟨hkk', h.symm⟩
+        · rw [if_neg hkk', ← has_iff_lookup inv.slots k' hk']
+          constructor
+          · rintro (⟨h, _⟩ | ⟨_, h⟩); exact absurd h hkk'; exact h
+          · intro h; exact Or.inr ⟨hkk', h⟩
+  · intro e hp
+    obtain ⟨he, hke, hpath, habs⟩ := hE e hp
+    have inv' : SInv idx (wr m.data e (k, v)) :=
+      sinv_insert hidx inv.slots k v e hk he hke hpath habs (by omega)
+    have hocc : occ (wr m.data e (k, v)) = occ m.data + 1 := by
+      have := occ_wr m.data e (k, v) he
+      simp only [hke, hk, ne_eq, not_true_eq_false, not_false_eq_true, if_true, if_false] at this
+      omega
+    refine ⟨⟨inv', ?_, ?_, ?_⟩, ?_⟩
+    · show m.size + 1 = occ (wr m.data e (k, v)) + (if m.zero.isSome then 1 else 0); rw [hocc, hsz]; omega
+    · show occ (wr m.data e (k, v)) ≤ m.growAt; rw [hocc]; omega
+    · show m.growAt < (wr m.data e (k, v)).size; rw [size_wr]; exact hroom
+    · intro k'
+      unfold abs
+      show (if k' = 0 then m.zero else lookup (wr m.data e (k, v)) k') = _
+      by_cases hk' : k' = 0
+      · rw [if_pos hk', if_pos hk', if_neg (by rw [hk']; exact Ne.symm hk)]
+      · rw [if_neg hk', if_neg hk']
+        apply lookup_eq_of_has inv' k' hk'
+        intro v'
+        rw [has_insert m.data e k v he hke k' hk' v']
+        by_cases hkk' : k' = k
+        · rw [if_pos hkk']
+          constructor
+          · rintro (⟨_, h⟩ | ⟨p, hp', hrd⟩)
+            · rw [h]
+            · exact absurd (by unfold key; rw [hrd]; exact hkk') (habs p hp')
+          · intro h; injection h with h; exact Or.inl ⟨hkk', h.symm⟩
+        · rw [if_neg hkk', ← has_iff_lookup inv.slots k' hk']
+          constructor
+          · rintro (⟨h, _⟩ | h); exact absurd h hkk'; exact h
+          · exact Or.inr
+
+/-- the state after the growth check of `Put` -/
+theorem growCheck_spec {idx : Nat → Nat → Nat} (hidx : IdxOk idx) {m : UMap V} (inv : Inv idx m) :
+    Inv idx (if m.size ≥ m.growAt then m.grow idx else m) ∧
+    (∀ k, abs (if m.size ≥ m.growAt then m.grow idx else m) k = abs m k) ∧
+    (if m.size ≥ m.growAt then m.grow idx else m).size = m.size ∧
+    occ (if m.size ≥ m.growAt then m.grow idx else m).data <
+      (if m.size ≥ m.growAt then m.grow idx else m).growAt := by
+  by_cases h : m.size ≥ m.growAt
+  · rw [if_pos h]
+    obtain ⟨h1, h2, h3, h4, _⟩ := grow_spec hidx inv
+    exact ⟨h1, h2, h3, h4⟩
+  · rw [if_neg h]
+    refine ⟨inv, fun _ => rfl, rfl, ?_⟩
+    have := inv.size_eq
+    omega
+
+/-- **`Put` keeps the invariant and is the abstract update.** -/
+theorem put_spec {idx : Nat → Nat → Nat} (hidx : IdxOk idx) {m : UMap V} (inv : Inv idx m) (k : Nat) (v : V) :
+    Inv idx (m.put idx k v) ∧ (∀ k', abs (m.put idx k v) k' = if k' = k then some v else abs m k') ∧
+    (m.put idx k v).size = m.size + (if (abs m k).isSome then 0 else 1) := by
+  unfold UMap.put
+  by_cases hk : k = 0
+  · rw [if_pos hk]
+    subst hk
+    refine ⟨⟨inv.slots, ?_, inv.load, inv.room⟩, ?_, ?_⟩
+    · have := inv.size_eq
+      show (if m.zero.isSome then m.size else m.size + 1) = occ m.data + 1
+      split <;> simp_all
+    · intro k'
+      by_cases hk' : k' = 0
+      · simp only [abs, hk', if_true]
+      · simp only [abs, hk', if_false]
+    · show (if m.zero.isSome then m.size else m.size + 1) = _
+      simp only [abs, if_true]
+      split <;> simp_all
+  · rw [if_neg hk]
+    obtain ⟨inv1, habs1, hsz1, hlt1⟩ := growCheck_spec hidx inv
+    generalize (if m.size ≥ m.growAt then m.grow idx else m) = m1 at *
+    obtain ⟨hF, hE, hN⟩ := store_spec hidx inv1 hlt1 k hk v
+    have hget := get_eq_abs hidx inv1 k
+    unfold UMap.get at hget
+    rw [if_neg hk] at hget
+    simp only
+    unfold UMap.putProbe
+    cases hp : probe m1.data k m1.data.size (idx m1.data.size k) with
+    | found i =>
+      simp only
+      obtain ⟨h1, h2⟩ := hF i hp
+      refine ⟨h1, fun k' => by rw [h2 k', habs1 k'], ?_⟩
+      rw [hp] at hget
+      rw [← habs1 k, ← hget]
+      simp [hsz1]
+    | empty e =>
+      simp only
+      obtain ⟨h1, h2⟩ := hE e hp
+      refine ⟨h1, fun k' => by rw [h2 k', habs1 k'], ?_⟩
+      rw [hp] at hget
+      rw [← habs1 k, ← hget]
+      simp [hsz1]
+    | full => exact absurd hp hN
+
+
+/-- **`PutIfNotExists`** stores only when the key is absent and reports the value now present. -/
+theorem putIfNotExists_spec {idx : Nat → Nat → Nat} (hidx : IdxOk idx) {m : UMap V} (inv : Inv idx m)
+    (k : Nat) (v : V) :
+    Inv idx (m.putIfNotExists idx k v).1 ∧
+    (∀ k', abs (m.putIfNotExists idx k v).1 k' =
+      if k' = k then some ((abs m k).getD v) else abs m k') ∧
+    (m.putIfNotExists idx k v).2.1 = (abs m k).getD v ∧
+    (m.putIfNotExists idx k v).2.2 = (abs m k).isNone ∧
+    (m.putIfNotExists idx k v).1.size = m.size + (if (abs m k).isSome then 0 else 1) := by
+  unfold UMap.putIfNotExists
+  by_cases hk : k = 0
+  · rw [if_pos hk]
+    subst hk
+    have hz : abs m 0 = m.zero := by simp [abs]
+    rw [hz]
+    cases hzz : m.zero with
+    | some z =>
+      simp only [Option.getD_some, Option.isNone_some, Option.isSome_some, if_true, Nat.add_zero, and_true]
+      refine ⟨inv, ?_⟩
+      intro k'
+      by_cases hk' : k' = 0
+      · rw [if_pos hk', hk', hz, hzz]
+      · rw [if_neg hk']
+    | none =>
+      simp only [Option.getD_none, Option.isNone_none, Option.isSome_none, and_true]
+      refine ⟨⟨inv.slots, ?_, inv.load, inv.room⟩, ?_, by simp⟩
+      · have := inv.size_eq; rw [hzz] at this
+        show m.size + 1 = occ m.data + 1
+        simpa using this
+      · intro k'
+        by_cases hk' : k' = 0
+        · simp only [abs, hk', if_true]
+        · simp only [abs, hk', if_false]
+  · rw [if_neg hk]
+    obtain ⟨inv1, habs1, hsz1, hlt1⟩ := growCheck_spec hidx inv
+    generalize (if m.size ≥ m.growAt then m.grow idx else m) = m1 at *
+    obtain ⟨hF, hE, hN⟩ := store_spec hidx inv1 hlt1 k hk v
+    have hget := get_eq_abs hidx inv1 k
+    unfold UMap.get at hget
+    rw [if_neg hk] at hget
+    simp only
+    cases hp : probe m1.data k m1.data.size (idx m1.data.size k) with
+    | found i =>
+      simp only
+      rw [hp] at hget
+      simp only at hget
+      have ha : abs m k = some (rd m1.data i).2 := by rw [← habs1 k, ← hget]
+      rw [ha]
+      refine ⟨inv1, ?_, by simp, by simp, by simp [hsz1]⟩
+      intro k'
+      by_cases hk' : k' = k
+      · rw [if_pos hk', hk', ← hget]; rfl
+      · rw [if_neg hk', habs1]
+    | empty e =>
+      simp only
+      rw [hp] at hget
+      simp only at hget
+      obtain ⟨h1, h2⟩ := hE e hp
+      have ha : abs m k = none := by rw [← habs1 k, ← hget]
+      rw [ha]
+      refine ⟨h1, ?_, by simp, by simp, by simp [hsz1]⟩
+      intro k'
+      rw [h2 k']
+      by_cases hk' : k' = k
+      · rw [if_pos hk', if_pos hk']; rfl
+      · rw [if_neg hk', if_neg hk', habs1]
+    | full => exact absurd hp hN
+
+/-! ### Del -/
+
+/-- clearing slot `i` with backward shift at the map level -/
+theorem delAt_spec {idx : Nat → Nat → Nat} (hidx : IdxOk idx) {m : UMap V} (inv : Inv idx m)
+    (i : Nat) (hi : i < m.data.size) (hk : key m.data i ≠ 0) :
+    Inv idx (m.delAt idx i) ∧
+    (∀ k', abs (m.delAt idx i) k' = if k' = key m.data i then none else abs m k') ∧
+    (m.delAt idx i).size + 1 = m.size ∧ (m.delAt idx i).data.size = m.data.size ∧
+    (m.delAt idx i).zero = m.zero ∧ (m.delAt idx i).growAt = m.growAt ∧
+    (∀ x, x < m.data.size → key (m.delAt idx i).data x ≠ 0 → ∃ y, y < m.data.size ∧ y ≠ i ∧
+      rd m.data y = rd (m.delAt idx i).data x ∧ dist m.data.size i x ≤ dist m.data.size i y) := by
+  obtain ⟨h1, h2, h3, h4, h5⟩ := delAt_slots hidx inv.slots i hi hk
+  have hsz := inv.size_eq
+  have hd : (m.delAt idx i).data = backShift idx m.data.size (wr m.data i (0, default)) m.data.size i i := rfl
+  refine ⟨⟨by rw [hd]; exact h1, ?_, ?_, ?_⟩, ?_, ?_, by rw [hd]; exact h2, rfl, rfl, by rw [hd]; exact h5⟩
+  · show m.size - 1 = occ (m.delAt idx i).data + (if m.zero.isSome then 1 else 0)
+    rw [hd]; omega
+  · show occ (m.delAt idx i).data ≤ m.growAt
+    have := inv.load; rw [hd]; omega
+  · show m.growAt < (m.delAt idx i).data.size
+    rw [hd, h2]; exact inv.room
+  · intro k'
+    unfold abs
+    show (if k' = 0 then m.zero else lookup (m.delAt idx i).data k') = _
+    by_cases hk' : k' = 0
+    · rw [if_pos hk', if_pos hk', if_neg (by rw [hk']; exact Ne.symm hk)]
+    · rw [if_neg hk', if_neg hk', hd]
+      apply lookup_eq_of_has h1 k' hk'
+      intro v'
+      rw [h4 k' v' hk']
+      by_cases hkk : k' = key m.data i
+      · rw [if_pos hkk]
+        constructor
+        · rintro ⟨h, _⟩; exact absurd hkk h
+        · intro h; cases h
+      · rw [if_neg hkk, ← has_iff_lookup inv.slots k' hk']
+        exact ⟨fun h => h.2, fun h => ⟨hkk, h⟩⟩
+  · show m.size - 1 + 1 = m.size
+    omega
+
+/-- **`Del` keeps the invariant and is the abstract erase**; no other key is
+lost, duplicated or miscounted. -/
+theorem del_spec {idx : Nat → Nat → Nat} (hidx : IdxOk idx) {m : UMap V} (inv : Inv idx m) (k : Nat) :
+    Inv idx (m.del idx k).1 ∧ (∀ k', abs (m.del idx k).1 k' = if k' = k then none else abs m k') ∧
+    (m.del idx k).2 = (abs m k).isSome ∧
+    (m.del idx k).1.size + (if (abs m k).isSome then 1 else 0) = m.size := by
+  unfold UMap.del
+  by_cases hk : k = 0
+  · rw [if_pos hk]
+    subst hk
+    have hz : abs m 0 = m.zero := by simp [abs]
+    rw [hz]
+    have hsz := inv.size_eq
+    by_cases hzz : m.zero.isSome
+    · rw [if_pos hzz]
+      simp only [hzz, if_true, true_and]
+      refine ⟨⟨inv.slots, ?_, inv.load, inv.room⟩, ?_, ?_⟩
+      · show m.size - 1 = occ m.data + 0
+        rw [hzz] at hsz; simp only [if_true] at hsz; omega
+      · intro k'
+        by_cases hk' : k' = 0
+        · simp only [abs, hk', if_true]
+        · simp only [abs, hk', if_false]
+      · show m.size - 1 + 1 = m.size
+        rw [hzz] at hsz; simp only [if_true] at hsz; omega
+    · rw [if_neg hzz]
+      refine ⟨inv, ?_, by simpa using hzz, by simp [hzz]⟩
+      intro k'
+      by_cases hk' : k' = 0
+      · rw [if_pos hk', hk', hz]; simpa using hzz
+      · rw [if_neg hk']
+  · rw [if_neg hk]
+    obtain ⟨hF, hE, hN⟩ := probe_spec hidx inv.slots k hk
+    have hget := get_eq_abs hidx inv k
+    unfold UMap.get at hget
+    rw [if_neg hk] at hget
+    cases hp : probe m.data k m.data.size (idx m.data.size k) with
+    | found i =>
+      simp only
+      rw [hp] at hget
+      simp only at hget
+      obtain ⟨hi, hki⟩ := hF i hp
+      obtain ⟨h1, h2, h3, _⟩ := delAt_spec hidx inv i hi (by rw [hki]; exact hk)
+      rw [hki] at h2
+      rw [← hget]
+      simp only [Option.isSome_some, if_true, true_and]
+      exact ⟨h1, h2, h3⟩
+    | empty e =>
+      simp only
+      rw [hp] at hget
+      simp only at hget
+      rw [← hget]
+      refine ⟨inv, ?_, by simp, by simp⟩
+      intro k'
+      by_cases hk' : k' = k
+      · rw [if_pos hk', hk', ← hget]
+      · rw [if_neg hk']
+    | full => exact absurd hp hN
+
+/-! ### Clear, New -/
+
+theorem clear_spec {idx : Nat → Nat → Nat} {m : UMap V} (inv : Inv idx m) :
+    Inv idx m.clear ∧ (∀ k, abs m.clear k = none) ∧ m.clear.size = 0 := by
+  have hn : 0 < m.data.size := by have := inv.room; omega
+  refine ⟨⟨sinv_replicate idx _ hn, ?_, ?_, ?_⟩, ?_, rfl⟩
+  · show 0 = occ (Array.replicate m.data.size (0, default)) + 0
+    rw [occ_replicate]
+  · show occ (Array.replicate m.data.size (0, default)) ≤ m.growAt
+    rw [occ_replicate]; omega
+  · show m.growAt < (Array.replicate m.data.size ((0, default) : Nat × V)).size
+    simpa using inv.room
+  · intro k
+    unfold abs
+    show (if k = 0 then none else lookup (Array.replicate m.data.size (0, default)) k) = none
+    split
+    · rfl
+    · rename_i hk
+      rw [lookup_eq_none_iff]
+      intro p _
+      unfold key; rw [rd_replicate]; exact Ne.symm hk
+
+theorem new_spec (idx : Nat → Nat → Nat) (capacity : Nat) :
+    Inv idx (UMap.new capacity : UMap V) ∧ (∀ k, abs (UMap.new capacity : UMap V) k = none) ∧
+    (UMap.new capacity : UMap V).size = 0 := by
+  have hpos : 0 < (if capacity > 8 then ceilPow2 (capacity * 4 / 3) else 8) := by
+    split
+    · have := le_ceilPow2 (capacity * 4 / 3); omega
+    · omega
+  generalize hN : (if capacity > 8 then ceilPow2 (capacity * 4 / 3) else 8) = N at hpos
+  have hd : (UMap.new capacity : UMap V).data = Array.replicate N (0, default) := by
+    unfold UMap.new; simp only [hN]
+  have hg : (UMap.new capacity : UMap V).growAt = growAtOf N := by
+    unfold UMap.new; simp only [hN]
+  refine ⟨⟨by rw [hd]; exact sinv_replicate idx _ hpos, ?_, ?_, ?_⟩, ?_, rfl⟩
+  · rw [hd, occ_replicate]; rfl
+  · rw [hd, occ_replicate]; omega
+  · rw [hd, hg]; simpa using growAtOf_lt N hpos
+  · intro k
+    unfold abs
+    rw [hd]
+    show (if k = 0 then none else _) = none
+    split
+    · rfl
+    · rename_i hk
+      rw [lookup_eq_none_iff]
+      intro p _
+      unfold key; rw [rd_replicate]; exact Ne.symm hk
+
+
+/-! ### EvictKeysAt -/
+
+theorem occ_of_inv {idx : Nat → Nat → Nat} {m : UMap V} (inv : Inv idx m) :
+    occ m.data = m.size - (if m.zero.isSome then 1 else 0) := by
+  have := inv.size_eq; omega
+
+/-- safety of the scan loop: only deletions, never `skip`, never more than `n`. -/
+theorem evictLoop_spec {idx : Nat → Nat → Nat} (hidx : IdxOk idx) (skip n : Nat) :
+    ∀ (f : Nat) (m : UMap V) (c s d : Nat), Inv idx m → d ≤ n →
+      Inv idx (UMap.evictLoop idx skip n m f c s d).1 ∧
+      (UMap.evictLoop idx skip n m f c s d).1.data.size = m.data.size ∧
+      (UMap.evictLoop idx skip n m f c s d).1.zero = m.zero ∧
+      (UMap.evictLoop idx skip n m f c s d).1.growAt = m.growAt ∧
+      d ≤ (UMap.evictLoop idx skip n m f c s d).2 ∧ (UMap.evictLoop idx skip n m f c s d).2 ≤ n ∧
+      (UMap.evictLoop idx skip n m f c s d).1.size + ((UMap.evictLoop idx skip n m f c s d).2 - d) = m.size ∧
+      ((UMap.evictLoop idx skip n m f c s d).2 = d → (UMap.evictLoop idx skip n m f c s d).1 = m) ∧
+      ∀ k, abs (UMap.evictLoop idx skip n m f c s d).1 k = abs m k ∨
+        (abs (UMap.evictLoop idx skip n m f c s d).1 k = none ∧ k ≠ skip ∧ k ≠ 0) := by
+  intro f
+  induction f with
+  | zero =>
+    intro m c s d inv hd
+    have e : UMap.evictLoop idx skip n m 0 c s d = (m, d) := rfl
+    rw [e]
+    exact ⟨inv, rfl, rfl, rfl, Nat.le_refl _, hd, by simp, fun _ => rfl, fun _ => Or.inl rfl⟩
+  | succ f ih =>
+    intro m c s d inv hd
+    unfold UMap.evictLoop
+    by_cases hc : s < m.data.size ∧ d < n
+    · rw [if_pos hc]
+      by_cases hk : (rd m.data c).1 = 0 ∨ (rd m.data c).1 = skip
+      · rw [if_pos hk]
+        exact ih m _ _ d inv hd
+      · rw [if_neg hk]
+        have hk0 : key m.data c ≠ 0 := fun h => hk (Or.inl h)
+        have hks : key m.data c ≠ skip := fun h => hk (Or.inr h)
+        have hcs : c < m.data.size := by
+          apply Classical.byContradiction; intro h
+          exact hk0 (key_oob m.data c (by omega))
+        obtain ⟨i1, a1, s1, z1, e1, g1, _⟩ := delAt_spec hidx inv c hcs hk0
+        obtain ⟨h1, h2, h3, h4, h5, h6, h7, h8, h9⟩ := ih (m.delAt idx c) c s (d + 1) i1 (by omega)
+        refine ⟨h1, by rw [h2, z1], by rw [h3, e1], by rw [h4, g1], by omega, h6, by omega, by omega, ?_⟩
+        intro k
+        rcases h9 k with h | h
+        · rw [h, a1 k]
+          by_cases hkk : k = key m.data c
+          · rw [if_pos hkk]; exact Or.inr ⟨rfl, by rw [hkk]; exact hks, by rw [hkk]; exact hk0⟩
+          · rw [if_neg hkk]; exact Or.inl rfl
+        · exact Or.inr h
+    · rw [if_neg hc]
+      exact ⟨inv, rfl, rfl, rfl, Nat.le_refl _, hd, by simp, fun _ => rfl, fun _ => Or.inl rfl⟩
+
+/-- completeness of the scan loop: if it stops short of its quota, nothing
+evictable is left in the slots. -/
+theorem evictLoop_complete {idx : Nat → Nat → Nat} (hidx : IdxOk idx) (skip n : Nat) :
+    ∀ (f : Nat) (m : UMap V) (c s d : Nat), Inv idx m → c < m.data.size → s ≤ m.data.size →
+      (∀ x, x < m.data.size → m.data.size ≤ dist m.data.size c x + s →
+        key m.data x = 0 ∨ key m.data x = skip) →
+      (m.data.size - s) + occ m.data < f →
+      (UMap.evictLoop idx skip n m f c s d).2 < n →
+      ∀ x, x < m.data.size → key (UMap.evictLoop idx skip n m f c s d).1.data x = 0 ∨
+        key (UMap.evictLoop idx skip n m f c s d).1.data x = skip := by
+  intro f
+  induction f with
+  | zero => intro m c s d _ _ _ _ hf; omega
+  | succ f ih =>
+    intro m c s d inv hc hs hscan hf
+    unfold UMap.evictLoop
+    by_cases hcond : s < m.data.size ∧ d < n
+    · rw [if_pos hcond]
+      by_cases hk : (rd m.data c).1 = 0 ∨ (rd m.data c).1 = skip
+      · rw [if_pos hk]
+        have hn : next m.data.size c < m.data.size := next_lt (by omega)
+        apply ih m (next m.data.size c) (s + 1) d inv hn (by omega) _ (by omega)
+        intro x hx hreg
+        by_cases hxc : x = c
+        · rw [hxc]; exact hk
+        · apply hscan x hx
+          have : dist m.data.size (next m.data.size c) x + 1 = dist m.data.size c x := by
+            grind [dist, next]
+          omega
+      · rw [if_neg hk]
+        have hk0 : key m.data c ≠ 0 := fun h => hk (Or.inl h)
+        obtain ⟨i1, _, s1, z1, e1, _, mv⟩ := delAt_spec hidx inv c hc hk0
+        have hocc : occ (m.delAt idx c).data + 1 = occ m.data := by
+          rw [occ_of_inv i1, occ_of_inv inv, e1]
+          have := inv.size_eq
+          have := occ_pos m.data c hc hk0
+          omega
+        intro hlt
+        have := ih (m.delAt idx c) c s (d + 1) i1 (by rw [z1]; exact hc) (by rw [z1]; exact hs)
+          (by
+            intro x hx hreg
+            rw [z1] at hx hreg
+            by_cases hkx : key (m.delAt idx c).data x = 0
+            · exact Or.inl hkx
+            · obtain ⟨y, hy, _, hrd, hd⟩ := mv x hx hkx
+              have hyk : key m.data y = key (m.delAt idx c).data x := by unfold key; rw [hrd]
+              rcases hscan y hy (by omega) with h | h
+              · rw [hyk] at h; exact absurd h hkx
+              · rw [hyk] at h; exact Or.inr h)
+          (by rw [z1]; omega) hlt
+        intro x hx
+        exact this x (by rw [z1]; exact hx)
+    · rw [if_neg hcond]
+      intro hlt x hx
+      exact hscan x hx (by simp only at hlt; omega)
+
+/-- **`EvictKeysAt`** removes at most `n` keys, never `skip`, keeps the value
+of every key it leaves, keeps the invariant, and accounts for each removal. -/
+theorem evict_spec {idx : Nat → Nat → Nat} (hidx : IdxOk idx) {m : UMap V} (inv : Inv idx m)
+    (offset n skip : Nat) :
+    Inv idx (m.evictKeysAt idx offset n skip).1 ∧
+    (m.evictKeysAt idx offset n skip).2 ≤ n ∧
+    (m.evictKeysAt idx offset n skip).1.size + (m.evictKeysAt idx offset n skip).2 = m.size ∧
+    ((m.evictKeysAt idx offset n skip).2 = 0 → (m.evictKeysAt idx offset n skip).1 = m) ∧
+    (∀ k, abs (m.evictKeysAt idx offset n skip).1 k = abs m k ∨
+      (abs (m.evictKeysAt idx offset n skip).1 k = none ∧ k ≠ skip)) := by
+  unfold UMap.evictKeysAt
+  by_cases h0 : n = 0 ∨ m.data.size = 0
+  · rw [if_pos h0]
+    exact ⟨inv, by simp, by simp, fun _ => rfl, fun _ => Or.inl rfl⟩
+  · rw [if_neg h0]
+    obtain ⟨h1, h2, h3, h4, h5, h6, h7, h8, h9⟩ :=
+      evictLoop_spec hidx skip n (2 * m.data.size + 1) m (offset % m.data.size) 0 0 inv (by omega)
+    generalize UMap.evictLoop idx skip n m (2 * m.data.size + 1) (offset % m.data.size) 0 0 = r at *
+    simp only
+    by_cases hz : r.2 < n ∧ r.1.zero.isSome ∧ skip ≠ 0
+    · rw [if_pos hz]
+      have hsz := h1.size_eq
+      rw [hz.2.1] at hsz
+      simp only [if_true] at hsz
+      refine ⟨⟨h1.slots, ?_, h1.load, h1.room⟩, by show r.2 + 1 ≤ n; omega, ?_, ?_, ?_⟩
+      · show r.1.size - 1 = occ r.1.data + 0; omega
+      · show r.1.size - 1 + (r.2 + 1) = m.size; omega
+      · intro h; exact absurd h (by show r.2 + 1 ≠ 0; omega)
+      · intro k
+        by_cases hk : k = 0
+        · right; subst hk; exact ⟨by simp [abs], Ne.symm hz.2.2⟩
+        · rcases h9 k with h | h
+          · left; rw [← h]; simp only [abs, hk, if_false]
+          · right; refine ⟨?_, h.2.1⟩; rw [← h.1]; simp only [abs, hk, if_false]
+    · rw [if_neg hz]
+      refine ⟨h1, h6, by omega, fun h => h8 (by omega), ?_⟩
+      intro k
+      rcases h9 k with h | h
+      · exact Or.inl h
+      · exact Or.inr ⟨h.1, h.2.1⟩
+
+/-- completeness: stopping short of the quota means only `skip` is left. -/
+theorem evict_complete {idx : Nat → Nat → Nat} (hidx : IdxOk idx) {m : UMap V} (inv : Inv idx m)
+    (offset n skip : Nat) (hlt : (m.evictKeysAt idx offset n skip).2 < n) :
+    ∀ k, abs (m.evictKeysAt idx offset n skip).1 k ≠ none → k = skip := by
+  have hn : 0 < m.data.size := by have := inv.room; omega
+  unfold UMap.evictKeysAt at hlt ⊢
+  have h0 : ¬ (n = 0 ∨ m.data.size = 0) := by omega
+  rw [if_neg h0] at hlt ⊢
+  obtain ⟨h1, h2, h3, _⟩ :=
+    evictLoop_spec hidx skip n (2 * m.data.size + 1) m (offset % m.data.size) 0 0 inv (by omega)
+  have hcomp := evictLoop_complete hidx skip n (2 * m.data.size + 1) m (offset % m.data.size) 0 0 inv
+    (Nat.mod_lt _ hn) (by omega) (by intro x hx h; have := dist_lt (Nat.mod_lt offset hn) hx; omega)
+    (by have := occ_le_size m.data; omega)
+  generalize UMap.evictLoop idx skip n m (2 * m.data.size + 1) (offset % m.data.size) 0 0 = r at *
+  simp only at hlt ⊢
+  have hslots : r.2 < n → ∀ k, k ≠ 0 → lookup r.1.data k ≠ none → k = skip := by
+    intro hr k hk hl
+    apply Classical.byContradiction
+    intro hks
+    apply hl
+    rw [lookup_eq_none_iff]
+    intro p hp hkp
+    rcases hcomp hr p (by rw [← h2]; exact hp) with h | h
+    · rw [hkp] at h; exact hk h
+    · rw [hkp] at h; exact hks h
+  by_cases hz : r.2 < n ∧ r.1.zero.isSome ∧ skip ≠ 0
+  · rw [if_pos hz] at hlt ⊢
+    intro k hk
+    by_cases hk0 : k = 0
+    · subst hk0; simp [abs] at hk
+    · apply hslots hz.1 k hk0
+      simpa only [abs, hk0, if_false] using hk
+  · rw [if_neg hz] at hlt ⊢
+    intro k hk
+    by_cases hk0 : k = 0
+    · subst hk0
+      simp only [abs, if_true] at hk
+      apply Classical.byContradiction
+      intro hs
+      have hsome : r.1.zero.isSome = true := by
+        cases h : r.1.zero with
+        | none => exact absurd h hk
+        | some _ => rfl
+      exact hz ⟨hlt, hsome, fun h => hs h.symm⟩
+    · apply hslots hlt k hk0
+      simpa only [abs, hk0, if_false] using hk
+
+/-- progress: with a positive quota and an evictable key present, at least one key goes. -/
+theorem evict_progress {idx : Nat → Nat → Nat} (hidx : IdxOk idx) {m : UMap V} (inv : Inv idx m)
+    (offset n skip : Nat) (hn : 0 < n) (k : Nat) (hk : k ≠ skip) (hp : abs m k ≠ none) :
+    1 ≤ (m.evictKeysAt idx offset n skip).2 := by
+  apply Classical.byContradiction
+  intro h
+  have h0 : (m.evictKeysAt idx offset n skip).2 = 0 := by omega
+  have heq := (evict_spec hidx inv offset n skip).2.2.2.1 h0
+  have := evict_complete hidx inv offset n skip (by omega) k (by rw [heq]; exact hp)
+  exact hk this
+
 end SdnsVerif.Lemmas.UMap
